@@ -215,7 +215,7 @@ def gen_valid(rng, tier):
     return L, base + main_rel + (specs[0][1],), shape
 
 
-MUTATIONS = ["imp:/", "imp:/..", "imp:/../X", "imp-root:/../X", "imp:/X ", "imp:/a../X", "imp:/..a/X",
+MUTATIONS = ["imp:/", "imp:/..", "imp:/../X", "imp-root:/../X", "imp:/a../X", "imp:/..a/X",
              "rootmain", "rootgomod", "gomod-nomodule", "gomod-empty", "modname-dots", "garbage", "nbsp", "ctrl", "tab", "eacute",
              "imp-dirfile"]
 
